@@ -142,8 +142,9 @@ def bounds_strategy():
     def near_pow(t):
         k, d = t
         return max(0, 10 ** k + d)
-    edge = st.tuples(st.integers(0, 6), st.integers(-2, 2)).map(near_pow)
-    anyv = st.one_of(edge, edge, st.integers(0, 130), st.integers(0, 999999), st.sampled_from([0, 9, 99, 100, 199, 200, 999, 1000, 2147483647]))
+    edge = st.tuples(st.one_of(st.integers(0, 6), st.integers(0, 6), st.integers(7, 15)), st.integers(-2, 2)).map(near_pow)
+    anyv = st.one_of(edge, edge, st.integers(0, 130), st.integers(0, 999999), st.integers(0, 10 ** 12),
+                     st.sampled_from([0, 9, 99, 100, 199, 200, 999, 1000, 2147483647, 2147483648, 4294967295, 10 ** 9, 10 ** 18 - 1]))
     return st.tuples(anyv, anyv).map(lambda t: (min(t), max(t)))
 
 
